@@ -454,7 +454,7 @@ def csr_assembly_rule(ctx):
     from ..repo import FuncInfo
 
     repo = ctx.repo
-    r = ctx.rule("R3.9", "cached-pattern assembly interpreted: the returned CSR equals the scatter-add of the element entries (two and three groups of different sizes, a slot absent for one group, matrix and vector slots, real / complex mixes, repeated assembly through the memoised map, magnitudes written in the source scaled down)", min_instances=30)
+    r = ctx.rule("R3.9", "cached-pattern assembly interpreted: the returned CSR equals the scatter-add of the element entries (two and three groups of different sizes, a slot absent for one group, matrix and vector slots, real / complex mixes, repeated assembly through the memoised map, magnitudes written in the source scaled down, element matrices handed over as transposed views)", min_instances=32)
     simu = repo.cls(SIMU)
     fA = repo.lookup_method(simu, simu.mangle("__Assemble_csr"))
     fM = repo.lookup_method(simu, simu.mangle("__Get_csr_map"))
@@ -518,7 +518,10 @@ def csr_assembly_rule(ctx):
              ("matrix, three groups, the last complex", True, ("A", "B", "C"), ("C",)),
              # the same with every magnitude written in the source (block, buffer, batch sizes) scaled down to 3: what is
              # assembled does not depend on such a constant
-             ("matrix, three groups, source magnitudes scaled to 3", True, ("A", "B", "C"), False, True), ("vector, three groups, source magnitudes scaled to 3", False, ("A", "B", "C"), False, True)]
+             ("matrix, three groups, source magnitudes scaled to 3", True, ("A", "B", "C"), False, True), ("vector, three groups, source magnitudes scaled to 3", False, ("A", "B", "C"), False, True),
+             # the element matrices handed over as a VIEW with the last two axes swapped in memory (what an einsum "...ij,...jk->...ik" /
+             # a user's K_e.transpose(0, 2, 1) returns): the values - non-symmetric here - are the same, only the layout differs
+             ("matrix, both groups, element matrices as transposed views of a contiguous buffer", True, ("A", "B"), False, False, "swapped-layout")]
     for label, isMatrix, present, cx, *scaled in cases:
         for rep in (0, 1):  # the second pass reuses the memoised map
             r.instance(fn=fA.qualname)
@@ -528,6 +531,11 @@ def csr_assembly_rule(ctx):
                 if tag == "C" and not three:
                     continue
                 data[g] = entries(tag, isMatrix, rep, (cx is True) or (isinstance(cx, tuple) and tag in cx)) if tag in present else None
+                if data[g] is not None and "swapped-layout" in scaled:
+                    X0 = data[g]
+                    data[g] = X0.transpose(0, 2, 1).copy().transpose(0, 2, 1)  # same values, memory order (e, j, i)
+                    assert data[g].data == X0.data and data[g].order == (0, 2, 1)
+            scaled = [x for x in scaled if x is True]
             I.size_literal = (lambda v: 3 if abs(v) >= 256 else v) if scaled else None
             if scaled and rep == 0:
                 memo.clear()
